@@ -28,7 +28,9 @@ SHRINK = {"data": "bytes"}
 ARGS = ["override_encoding", "transport_encoding", "same_origin_parent_encoding", "likely_encoding", "default_encoding"]
 LABELS_VALID = ["utf-8", "UTF-8", " utf8 ", "koi8-r", "KOI8-R", "windows-1252", "latin1", "iso-8859-2", "shift_jis", "Shift_JIS", "euc-jp", "gbk", "big5", "euc-kr", "windows-1251",
                 "iso-8859-15", "macintosh", "ibm866", "\tascii\n", "us-ascii", "cp1252", "gb18030", "iso-2022-jp", "windows-874", "x-mac-cyrillic"]
-LABELS_ODD = ["utf-16", "utf-16le", "utf-16be", "x-user-defined", "bogus", "", "utf-7", "utf-32", "none", "\xe9"]
+LABELS_ODD = ["utf-16", "utf-16le", "utf-16be", "x-user-defined", "bogus", "", "utf-7", "utf-32", "none", "\xe9",
+              # look-alikes of valid labels that only Unicode case mapping / white-space stripping would accept
+              "\u212aOI8-R", "euc-\u212ar", "\xa0koi8-r", "koi8-r\x0b", "\x1fshift_jis", "GB\u212a", "\u017fhift_jis", "w\u0131ndows-1252"]
 # x-user-defined is not used as an *argument* value: webencodings' own stream reader for it is broken (third party)
 ARG_LABELS_ODD = [x for x in LABELS_ODD if x != "x-user-defined"]
 
